@@ -2,6 +2,7 @@ package core
 
 import (
 	"go/ast"
+	"go/token"
 	"regexp"
 	"strings"
 )
@@ -445,6 +446,93 @@ func (p *Prog) ExtremumUpdates(pkg string, keep func(file string) bool) []Extrem
 					}
 					out = append(out, ExtremumUpdate{fd.Name.Name, ifs, p.NodeText(ifs.Cond) + " { " + p.NodeText(as) + " }", other == lhs, other, lhs})
 				}
+				return true
+			})
+		}
+	}
+	return out
+}
+
+// SideAssign is one `lhs = rhs` pair (also inside a tuple assignment) where both sides carry a side of a box in their
+// name: consistent when it is the same side.
+type SideAssign struct {
+	Func       string
+	Pos        token.Pos
+	Text       string
+	Consistent bool
+}
+
+var sideWordRe = regexp.MustCompile(`(Left|Right|Top|Bottom)`)
+var sideLetterRe = regexp.MustCompile(`[a-z](L|R|T|B)$`)
+
+func sideOfName(n string) string {
+	if m := sideWordRe.FindAllString(n, -1); len(m) == 1 {
+		return m[0][:1]
+	} else if len(m) > 1 {
+		return ""
+	}
+	if m := sideLetterRe.FindStringSubmatch(n); m != nil {
+		return m[1]
+	}
+	return ""
+}
+
+// SideAssigns lists them for a package.
+func (p *Prog) SideAssigns(pkg string, keep func(file string) bool) []SideAssign {
+	pk := p.ByPath[pkg]
+	if pk == nil {
+		return nil
+	}
+	nameOf := func(e ast.Expr) string {
+		for {
+			switch x := e.(type) {
+			case *ast.ParenExpr:
+				e = x.X
+				continue
+			case *ast.CallExpr:
+				if sel, ok := x.Fun.(*ast.SelectorExpr); ok && len(x.Args) == 0 && sel.Sel.Name == "V" {
+					e = sel.X
+					continue
+				}
+			case *ast.SelectorExpr:
+				return x.Sel.Name
+			case *ast.Ident:
+				return x.Name
+			}
+			return ""
+		}
+	}
+	var out []SideAssign
+	for _, f := range pk.Syntax {
+		name := p.Fset.Position(f.Pos()).Filename
+		if i := strings.LastIndex(name, "/"); i >= 0 {
+			name = name[i+1:]
+		}
+		if strings.HasSuffix(name, "_test.go") || (keep != nil && !keep(name)) {
+			continue
+		}
+		for _, d := range f.Decls {
+			fd, ok := d.(*ast.FuncDecl)
+			if !ok || fd.Body == nil {
+				continue
+			}
+			ast.Inspect(fd.Body, func(n ast.Node) bool {
+				as, ok := n.(*ast.AssignStmt)
+				if !ok || len(as.Lhs) != len(as.Rhs) {
+					return true
+				}
+				// only tuple assignments: `l1, l2 = r1, r2` is crossed when the sides of l1/r2 and l2/r1 agree and
+				// those of l1/r1 do not (a single `MarginRight = MarginLeft` is how a box is centred)
+				if len(as.Lhs) != 2 {
+					return true
+				}
+				l1, l2 := sideOfName(nameOf(as.Lhs[0])), sideOfName(nameOf(as.Lhs[1]))
+				r1, r2 := sideOfName(nameOf(as.Rhs[0])), sideOfName(nameOf(as.Rhs[1]))
+				if l1 == "" || l2 == "" || r1 == "" || r2 == "" || l1 == l2 {
+					return true
+				}
+				txt := nameOf(as.Lhs[0]) + ", " + nameOf(as.Lhs[1]) + " = " + nameOf(as.Rhs[0]) + ", " + nameOf(as.Rhs[1])
+				out = append(out, SideAssign{fd.Name.Name, as.Pos(), txt, !(l1 == r2 && l2 == r1 && l1 != r1)})
 				return true
 			})
 		}
